@@ -16,7 +16,6 @@ import (
 	"github.com/sirupsen/logrus"
 	"github.com/stretchr/testify/require"
 
-	"github.com/form3tech-oss/f1/v2/internal/log"
 	"github.com/form3tech-oss/f1/v2/internal/metrics"
 	"github.com/form3tech-oss/f1/v2/internal/options"
 	"github.com/form3tech-oss/f1/v2/internal/progress"
@@ -222,9 +221,13 @@ func newActive(name string, fn f1testing.ScenarioFn, stats *progress.Stats) *wor
 }
 
 // newActiveOf runs a registered scenario object: a second execution in one process gets the same object
+// the handles' logger rotates between f1's discard logger, one with every level enabled and one
+// with no level enabled at all: outcomes must not depend on what the logger lets through
+var loggerKind atomic.Int64
+
 func newActiveOf(sc *scenarios.Scenario, stats *progress.Stats) *workers.ActiveScenario {
 	m := runkit.NewMetrics(nil, true)
-	return workers.NewActiveScenario(sc, m, stats, log.NewDiscardLogger(), logrus.New())
+	return workers.NewActiveScenario(sc, m, stats, runkit.Logger(int(loggerKind.Add(1))), logrus.New())
 }
 
 // ---------------------------------------------------------------- C06/C07: one worker, generated bodies
